@@ -8,7 +8,10 @@ def run(ctx):
     r1 = ctx.tlc("ExprParser", "MC_ExprParser_t" if thorough else "MC_ExprParser_q", timeout=2400)
     rs = ctx.tlc("ExprParser", "MC_ExprParser_sim", simulate="num=%d" % (30000 if thorough else 3000), depth=45,
                  workers=1, timeout=1500)
-    cases = r1.emitted + rs.emitted
+    # all viable strings of <= 17 tokens over a reduced alphabet: long enough for a nested block followed by a dotted
+    # path into it (the same flattened key spelled on two nesting levels)
+    r3 = ctx.tlc("ExprParser", "MC_ExprParser_small", timeout=1500)
+    cases = r1.emitted + rs.emitted + r3.emitted
     if not r1.emitted or not rs.emitted:
         raise vf.Infra("ExprParser emitted nothing")
     res = ctx.vh_sharded("exprparse", cases, extra=["--variants", "3" if thorough else "2",
@@ -18,7 +21,8 @@ def run(ctx):
     rep.rule = ("every token string of <= %d tokens whose proper prefixes are viable (each viable prefix extended by every "
                 "admissible and every inadmissible token, plus its truncation at end of input) over {IDENT x4, STRING, INTEGER x2, "
                 "FLOAT, 7 punctuation tokens}, nesting <= %d, enumerated by TLC with verdict and flattened assignments; plus %d "
-                "simulated viable strings up to 40 tokens / nesting 6; tokens concretised with sign/hex integers, all float forms, "
+                "simulated viable strings up to 40 tokens / nesting 6, and all viable strings of <= 17 tokens over a reduced alphabet "
+                "(one field name, one type, integers: keys spelled on two nesting levels); tokens concretised with sign/hex integers, all float forms, "
                 "string literals with every admitted escape, raw line breaks and non-ASCII, arbitrary spacing; expr.Parse must "
                 "return exactly the map (later assignment wins) or an error and no map; %s random / mutated / deeply nested inputs "
                 "up to 64 KiB for totality.  Non-trivial = distinct (verdict, token kind sequence)." % (
